@@ -75,6 +75,8 @@ def features(schema_name):
     # macro-only features, aimed at definitions of the schema
     tgt = {"example": ("Fruit", "Veggie"), "xrt": ("User", "User"), "rep1": ("Kind", "Holder"), "rep2": ("Sm", "Rooted")}[schema_name]
     f["patch"] = ({"patch": {tgt[1]: {"rename": "Renamed", "derives": ["PartialEq"]}}}, None, 'patch = { %s = { rename = "Renamed", derives = [PartialEq] } }' % tgt[1])
+    # the same multi-segment derive given globally and in a patch: both spellings must dedupe
+    f["patch_path"] = ({"patch": {tgt[1]: {"derives": ["schemars::JsonSchema"]}}}, None, 'patch = { %s = { derives = [schemars::JsonSchema] } }' % tgt[1])
     for sub in itertools.chain.from_iterable(itertools.combinations(["FromStr", "Display", "Default"], r) for r in range(4)):
         mods = []
         if "FromStr" not in sub:
@@ -119,6 +121,8 @@ def compatible(combo):
         return False
     if sum(1 for c in combo if c.startswith("replace_")) > 1:
         return False
+    if "patch" in s and "patch_path" in s:
+        return False
     if "crate_digit" in s and "crate_digit_rename" in s:
         return False
     return True
@@ -135,6 +139,8 @@ def cases(tier, seed):
         combos = [()]
         for r in range(1, kmax + 1):
             combos += [c for c in itertools.combinations(names, r) if compatible(c)]
+        if tier == "quick":
+            combos += [c for c in (("derive_path", "patch_path"), ("derive_pe", "patch"), ("crate_rename", "unk_allow"), ("crate_digit", "crate_never")) if all(n in names for n in c)]
         if tier != "quick":
             cli_names = [n for n in names if feats[n][1] is not None]
             combos += [c for c in itertools.combinations(cli_names, 3) if compatible(c)][::3]
